@@ -190,6 +190,16 @@ func (r *Report) Finish(verifDir, tier string, seed int64, start time.Time, find
 	for _, m := range r.fatal {
 		fmt.Printf("CHECKER-CANNOT-DECIDE property=%s: %s\n", r.Prop, m)
 	}
+	if os.Getenv("GLDAPCHECK_VERBOSE") != "" {
+		for _, o := range r.Obls {
+			if o.Status == Discharged {
+				fmt.Printf("  ok %s [%s] %s: %s\n", o.Pos, o.Rule, o.Construct, o.Detail)
+			}
+		}
+		for _, n := range r.Notes {
+			fmt.Printf("  note: %s\n", n)
+		}
+	}
 	for _, o := range bad {
 		fmt.Printf("  %s %s [%s] %s: %s\n", o.Status, o.Pos, o.Rule, o.Construct, o.Detail)
 	}
